@@ -107,7 +107,7 @@ fn peek_all() {
     let world = w();
     let mut v = vec![];
     for (i, o) in world.objs.iter().enumerate() {
-        v.push((i, o.queue.as_ref().and_then(|q| q.verif_peek())));
+        v.push((i, o.peek()));
     }
     let f = facts();
     f.queue_peeks = v;
@@ -117,7 +117,7 @@ fn peek_all() {
 fn note_states() {
     let world = w();
     for o in world.objs.iter() {
-        if let Some(Some((st, _, _))) = o.queue.as_ref().map(|q| q.verif_peek()) {
+        if let Some((st, _, _)) = o.peek() {
             world.cover.state_seen[st as usize] += 1;
         }
     }
@@ -198,7 +198,7 @@ fn take_snapshot(pi: usize, code: &'static str) -> Q1Snap {
         snap.strong.push(o.arc.as_ref().map(|a| Arc::strong_count(a)));
         snap.value_drops.push(o.value_drops);
         snap.live_owners.push(o.weak.as_ref().map_or(0, |w| w.strong_count()));
-        snap.queues.push(o.queue.as_ref().and_then(|q| q.verif_peek()));
+        snap.queues.push(o.peek());
     }
     for st in world.streams.iter() {
         snap.streams.push((st.drops, st.closure_drops));
@@ -243,6 +243,17 @@ fn controller(prog: Arc<Program>) {
     }));
 
     for o in 0..prog.n_objs {
+        if prog.raw_objs.contains(&o) {
+            // a bare queue: its jobs work on a value that belongs to the harness (never freed, so a job that outlives every handle
+            // of the queue still has something to work on)
+            let q = desync::scheduler::queue();
+            let world = w();
+            world.objs[o].is_raw = true;
+            world.objs[o].raw_weak = Some(Arc::downgrade(&q));
+            world.objs[o].raw = Some(q);
+            world.objs[o].raw_val = Box::into_raw(Box::new(Val { o, occupant: None, chain: 0, log: vec![] })) as usize;
+            continue;
+        }
         let d = Arc::new(Desync::new(Val { o, occupant: None, chain: 0, log: vec![] }));
         let q = d.verif_queue().clone();
         let world = w();
@@ -428,6 +439,19 @@ fn controller(prog: Arc<Program>) {
             let pending = world.ops.iter().any(|r| r.obj == Some(o) && r.kind.has_body() && matches!(r.outcome, CallOutcome::Returned(_)) && r.start.is_none() && !(r.kind == Kind::FutureSync));
             (world.objs[o].arc.clone(), world.objs[o].panic_injected || unfinished || pending)
         };
+        if arc.is_none() && w().objs[o].is_raw {
+            let q = w().objs[o].raw.clone();
+            if let (Some(q), false) = (q, skip) {
+                let peek = q.verif_peek();
+                let r = kernel::catch_unwind(|| desync::scheduler::try_sync(&q, || 1u8));
+                let txt = match r {
+                    Ok(Ok(_)) => "ok".to_string(),
+                    Ok(Err(_)) => format!("busy (queue state before the call: {:?})", peek),
+                    Err(_) => "panicked".to_string(),
+                };
+                facts().final_try_sync.push((o, txt));
+            }
+        }
         if let Some(d) = arc {
             if !skip {
                 let peek = d.verif_queue().verif_peek();
@@ -476,9 +500,19 @@ fn controller(prog: Arc<Program>) {
         st.waker = None;
         st.stale.clear();
     }
+    let mut unreachable_values = vec![];
     for o in world.objs.iter_mut() {
         o.queue = None;
         o.weak = None;
+        if o.is_raw && o.raw.is_none() && o.raw_queue_gone() && o.raw_val != 0 {
+            // nobody can reach the value any more
+            unreachable_values.push(o.raw_val);
+            o.raw_val = 0;
+        }
+        o.raw_weak = None;
+    }
+    for p in unreachable_values {
+        unsafe { drop(Box::from_raw(p as *mut Val)) };
     }
 }
 
